@@ -72,6 +72,19 @@ func (g *Gen) globalAddr(gl *ssa.Global) string {
 	return n
 }
 
+// globalPtr: package-level variables of scalar type live in their own one-cell heaps ("G.pkg.name"), so that
+// writes through slices or pointers can never alias them; struct-typed globals are objects at a fixed address.
+func (st *State) globalPtr(x *ssa.Global) Val {
+	a := st.g.globalAddr(x)
+	st.assume(fmt.Sprintf("(> %s 0)", a))
+	elem := x.Type().(*types.Pointer).Elem()
+	p := st.ptrTo(elem, a)
+	if p.K == KLoc && p.Loc.Heap != "mem.flatarr" && p.Loc.Heap != "mem.slice" {
+		p.Loc = &Loc{Heap: "G." + x.Pkg.Pkg.Name() + "." + x.Name(), Idx: "0", Addr: a, Typ: elem}
+	}
+	return p
+}
+
 func (g *Gen) funcID(fn *ssa.Function) string {
 	n := sym("F:" + ShortName(fn))
 	g.declare(n, fmt.Sprintf("(declare-const %s Int)", n))
@@ -105,9 +118,7 @@ func (st *State) val(v ssa.Value) Val {
 	case *ssa.Const:
 		return st.constVal(x)
 	case *ssa.Global:
-		a := st.g.globalAddr(x)
-		st.assume(fmt.Sprintf("(> %s 0)", a))
-		return st.ptrTo(x.Type().(*types.Pointer).Elem(), a)
+		return st.globalPtr(x)
 	case *ssa.Function:
 		return Val{K: KInt, T: st.g.funcID(x), Clo: &Closure{Fn: x}}
 	case *ssa.FreeVar:
